@@ -29,7 +29,8 @@ async fn main() {
         let ignores: Vec<&str> = (0..ni).map(|_| r.pick(&pats)).collect();
         let exts: Vec<&str> = (0..ne).map(|_| r.pick(&extsp)).collect();
         let mut probe = |r: &mut Rng| { let mut p = if r.below(7) == 0 { tmp.join("else") } else { origin.clone() }; for _ in 0..(r.below(3) + 1) { p.push(r.pick(&names)); } p };
-        let whitelist: Vec<PathBuf> = if r.below(5) == 0 { vec![probe(&mut r)] } else { vec![] };
+        // 0-4 explicitly watched files, in the order the generator draws them (NOT sorted: `new` takes them as given)
+        let whitelist: Vec<PathBuf> = match r.below(10) { 0 | 1 => vec![probe(&mut r)], 2 => vec![probe(&mut r), probe(&mut r)], 3 => (0..3 + r.below(2)).map(|_| probe(&mut r)).collect(), _ => vec![] };
         let mut files = vec![]; let mut enc_files = vec![];
         if r.below(3) == 0 {
             let d = r.pick(&["", "src", "a"]); let ai = if d.is_empty() { origin.clone() } else { origin.join(d) };
@@ -45,7 +46,7 @@ async fn main() {
             let np = if r.below(8) == 0 { 0 } else { r.below(2) + 1 };
             let mut tags = vec![]; let mut enc = vec![];
             for _ in 0..np {
-                let p = if !whitelist.is_empty() && r.below(4) == 0 { whitelist[0].clone() } else { probe(&mut r) };
+                let p = if !whitelist.is_empty() && r.below(3) == 0 { whitelist[r.below(whitelist.len() as u64) as usize].clone() } else { probe(&mut r) };
                 let ft = match r.below(4) { 0 => Some(FileType::Dir), 1 => Some(FileType::File), 2 => None, _ => Some(FileType::Symlink) };
                 enc.push(format!("{}\x1e{}", p.display(), if ft == Some(FileType::Dir) {1} else {0}));
                 tags.push(Tag::Path { path: p, file_type: ft });
